@@ -222,6 +222,27 @@ def run(R):
         stats["builders"][name] = st
         if st["parsed"] == 0:
             fails.append({"why": f"no vector of {name} was parsed: the check is vacuous"})
+    # the whole space on the model side (fast), the real parser on exactly the vectors the model rejects: whatever breaks the
+    # sweep theorem is turned into a concrete wrapper call
+    for name, count in names:
+        rows = M.ask("wrapper_rejected", name.encode(), 300)
+        if not isinstance(rows, list):
+            continue
+        for so, sv, sm in rows:
+            o = dec_opts(so)
+            vec = [core.atom_bytes(t).decode() for t in sv]
+            real = H.ask({"op": "clap_parse", "argv": vec})
+            stats["model_rejected_replayed"] = stats.get("model_rejected_replayed", 0) + 1
+            R.case((name, tuple(vec)), nontrivial=True)
+            kc = known_class(name, o)
+            if real.get("ok"):
+                dis.append({"builder": name, "argv": vec, "model": list(model_verdict(sm)), "real": [True, None]})
+            elif kc:
+                stats["known"][kc] = stats["known"].get(kc, 0) + 1
+                R.known(kc, f"{name}: {' '.join(vec)[:100]} -> {real.get('kind')}")
+            elif not any(f.get("argv") == vec for f in fails):
+                fails.append({"why": f"{name} builds a command line the CLI rejects ({real.get('kind')}: {real.get('msg', '')[:120]})",
+                              "builder": name, "options": o, "argv": vec})
     # malformed stream: model vs real parser on (mostly) rejected input
     for i in range(600 if quick else 30000):
         if not pool:
